@@ -264,10 +264,13 @@ def run(tier: str, rng: random.Random, proof_ok: bool) -> dict:
                      ("UnionV", [_STR, lz]), ("SetV", lz, [], [], None), ("NTupleV", [lz, _INT], None, None), ("MaybeV", lz), ("CacheV", lz),
                      ("DictAnyV", [P(G.S("a"), lz), P(G.S("b"), ("KeyNotRequired", lz))], None, None, False)]
     plan = [([_INT], t_) for t_ in explicit] + [None] * n
+    run_rng, explicit_rng = rng, random.Random(1909)     # the explicit part draws from a generator of its own: the generated part is the same stream as before
     for item in plan:
         if item is not None:
             lazy, t = item
+            rng = explicit_rng
         else:
+            rng = run_rng
             lazy = [G.gen_validator(rng, 0)]
             t = G.gen_validator(rng, rng.choice([0, 1, 2, 2, 3]), lazy_n=1)
         # (1) independent rebuild: equal, same repr, repr stable
@@ -325,6 +328,7 @@ def run(tier: str, rng: random.Random, proof_ok: bool) -> dict:
                         report("C19:equal-but-different-behaviour",
                                f"{a!r} == {c!r} yet on {x1!r} ({mode}) they return {r1!r} and {r2!r}",
                                {"t": to_json(t), "t2": to_json(t2), "lazy": to_json(lazy), "x": to_json(xt), "mode": mode})
+    rng = run_rng
     # (3) equal validators behave equally whatever each has been used for before: one of two equal objects
     #     is first used on a short history, then both are asked about the same input
     overlap = [("UnionV", [("Scalar", ("KDatetime",), Some(("CoDatetime",)), [], [], []), ("Scalar", ("KStr",), None, [], [], [])]),
